@@ -55,16 +55,18 @@ static void style_b(int alt, int ord, const char *pfx, hx_buf *w, gx_hdr *tab, i
     }
 }
 
+/* chunk extensions: 0 none, 1 short, 2 long enough to straddle any probe window, starting with a non-hex letter */
+#define GX_EXT(e) ((e) == 0 ? "" : (e) == 1 ? ";x=y" : ";token=value-0123456789")
 void gx_chunked(hx_buf *out, const uint8_t *body, size_t n, const int *sizes, int nsizes, int ext, int trailer) {
     size_t off = 0;
     for (int i = 0; i < nsizes; i++) {
         if (sizes[i] <= 0) continue;
-        hb_printf(out, "%x%s\r\n", sizes[i], ext ? ";x=y" : "");
+        hb_printf(out, "%x%s\r\n", sizes[i], GX_EXT(ext));
         hb_put(out, body + off, (size_t) sizes[i]); off += (size_t) sizes[i];
         hb_puts(out, "\r\n");
     }
     (void) n;
-    hb_printf(out, "0%s\r\n", ext ? ";x=y" : "");
+    hb_printf(out, "0%s\r\n", GX_EXT(ext));
     if (trailer) hb_puts(out, "X-T: tr\r\n");
     hb_puts(out, "\r\n");
 }
@@ -147,7 +149,7 @@ void gx_build(const int *q, const int *s, int ord, int last, gx_msg *t, hx_buf *
             size_t before = req->n;
             int sizes[2]; int ns = 1; sizes[0] = (int) bl;
             if (balt == 3) { sizes[0] = (int) (bl / 2); sizes[1] = (int) (bl - bl / 2); ns = 2; }
-            gx_chunked(req, (const uint8_t *) body, bl, sizes, ns, balt == 3, balt == 4);
+            gx_chunked(req, (const uint8_t *) body, bl, sizes, ns, balt == 3 ? 2 : 0, balt == 4);
             t->req_tc = HTP_CODING_CHUNKED;
             size_t framed = req->n - before;
             size_t tail = 2 + (balt == 4 ? 9 : 0);       /* final CRLF (+ "X-T: tr\r\n") */
@@ -190,7 +192,7 @@ void gx_build(const int *q, const int *s, int ord, int last, gx_msg *t, hx_buf *
             hb_puts(res, "Transfer-Encoding: chunked\r\n\r\n"); addh(t->resh, &t->nresh, "Transfer-Encoding", "chunked", NULL);
             size_t before = res->n;
             int sizes[2] = { (int) (bl / 2), (int) (bl - bl / 2) };
-            gx_chunked(res, (const uint8_t *) body, bl, sizes, 2, 0, fr == 2);
+            gx_chunked(res, (const uint8_t *) body, bl, sizes, 2, fr == 2 ? 2 : 0, fr == 2);
             hb_put(&t->resbody, body, bl);
             t->res_tc = HTP_CODING_CHUNKED;
             size_t framed = res->n - before, tail = 2 + (fr == 2 ? 9 : 0);
